@@ -43,7 +43,13 @@ def run(res, tier, replay):
             f0 = [(b"/a.txt", b"hello"), (b"/b.bin", bytes(300))]
             f1 = [(b"/c%d.bin" % j, rng.choice([5, 20000, 40000, 70000])) for j in range(rng.randrange(2, 5))]
             try:
-                chm, exp = chmfmt.build(f0, f1, rng, chunk_size=512, density=1, wbits=16, reset_frames=rng.choice([1, 2]), with_rtable=rng.random() < 0.8)
+                if i % 6 == 2:
+                    # many reset points crossed while the decoder is kept: long members, a reset every frame, match-heavy streams (what a reset
+                    # must re-initialise - repeated offsets, block state, code lengths - is used again right behind it)
+                    f1 = [(b"/c%d.bin" % j, [70000, 66000, 40000][j]) for j in range(3)]
+                    chm, exp = chmfmt.build(f0, f1, rng, chunk_size=512, density=1, wbits=16, reset_frames=1, with_rtable=True, lzx_match_p=0.85)
+                else:
+                    chm, exp = chmfmt.build(f0, f1, rng, chunk_size=512, density=1, wbits=16, reset_frames=rng.choice([1, 2]), with_rtable=rng.random() < 0.8)
             except ValueError:
                 continue
             names = sorted([k for k in exp if not k.startswith(b"::")], key=chmfmt.sort_key)
